@@ -230,6 +230,14 @@ Section MachineProofs.
   Lemma current_in w f : In f (current w) -> exists snap, In snap (w_snaps w) /\ In f snap.
   Proof. unfold current. destruct (w_snaps w) as [|s l]; [intros []|]. intro H. exists s. split; [left; auto | exact H]. Qed.
 
+  (* the re-check of the file just written, through a cache that only knows the table's layout, passes *)
+  Lemma recheck_ok c : cache_ok c -> exists c2, recheck (Some ts) c A = (c2, true) /\ cache_ok c2.
+  Proof.
+    intro C. unfold recheck. destruct (create_arrow_schema c ts) as [a2 c2] eqn:E.
+    destruct (create_ok _ _ _ _ C eq_refl E) as [Ea C2]. subst a2. exists c2.
+    unfold A, T. rewrite aschema_eqb_refl. split; [reflexivity | exact C2].
+  Qed.
+
   Lemma step_inv w e : Inv w -> Inv (fst (step conv w e)).
   Proof.
     intro I. unfold step. rewrite (inv_schema w I).
@@ -237,11 +245,12 @@ Section MachineProofs.
     pose proof (resolve_fields _ _ R) as F.
     destruct (negb (forallb (validate_record (sfields s)) (e_recs e))); [exact I|].
     destruct (create_arrow_schema (cache_of w (e_handle e)) s) as [a c'] eqn:CA.
-    destruct (create_ok _ _ _ _ (cache_of_ok w (e_handle e) I) F CA) as [Ea Cc]. subst a.
-    assert (I1 : Inv (set_cache w (e_handle e) c')).
-    { constructor; simpl; try apply I. intros h c [E|H]; [inversion E; subst; exact Cc | exact (inv_caches w I h c H)]. }
-    destruct (convert conv A (e_recs e)) as [rows|] eqn:CV; [|exact I1].
+    destruct (create_ok _ _ _ _ (cache_of_ok w (e_handle e) I) F CA) as [Ea Cc0]. subst a.
+    assert (SC : forall c, cache_ok c -> Inv (set_cache w (e_handle e) c)).
+    { intros c Cok. constructor; simpl; try apply I. intros h c0 [E|H]; [inversion E; subst; exact Cok | exact (inv_caches w I h c0 H)]. }
+    destruct (convert conv A (e_recs e)) as [rows|] eqn:CV; [|exact (SC _ Cc0)].
     rewrite F. destruct (bounds_for T A rows) as [lo hi] eqn:B.
+    destruct (recheck_ok c' Cc0) as [c2 [RC Cc]]. rewrite RC. simpl (true && _).
     destruct (e_commit_ok e); simpl.
     - constructor; simpl.
       + apply I.
@@ -312,7 +321,8 @@ Section NoTrace.
     destruct (create_arrow_schema (cache_of w (e_handle e)) s) as [a c'].
     destruct (convert conv a (e_recs e)) as [rows|]; [|exact S].
     destruct (bounds_for (sfields s) a rows) as [lo hi].
-    destruct (e_commit_ok e); simpl; unfold store_fresh; simpl.
+    destruct (recheck (w_schema w) c' a) as [c2 ok].
+    destruct (ok && e_commit_ok e); simpl; unfold store_fresh; simpl.
     - intros x [E|H]; [lia | pose proof (S x H); lia].
     - intros x Hx. unfold remove in Hx. apply filter_In in Hx. destruct Hx as [[E|H] _]; [lia | pose proof (S x H); lia].
   Qed.
@@ -331,7 +341,8 @@ Section NoTrace.
     destruct (create_arrow_schema (cache_of w (e_handle e)) s) as [a c'].
     destruct (convert conv a (e_recs e)) as [rows|]; [|simpl; auto 6].
     destruct (bounds_for (sfields s) a rows) as [lo hi].
-    destruct (e_commit_ok e); simpl; intro H; [contradiction H; reflexivity|].
+    destruct (recheck (w_schema w) c' a) as [c2 ok].
+    destruct (ok && e_commit_ok e); simpl; intro H; [contradiction H; reflexivity|].
     assert (R : remove (w_next w) (w_next w :: w_store w) = w_store w).
     { apply remove_fresh. intro Hin. pose proof (S _ Hin). lia. }
     rewrite R. auto 6.
@@ -424,10 +435,11 @@ Section Exact.
     destruct (forallb (validate_record (sfields s)) (e_recs e)) eqn:V; simpl.
     2:{ rewrite app_nil_r. split; [reflexivity | discriminate]. }
     destruct (create_arrow_schema (cache_of w (e_handle e)) s) as [a c'] eqn:CA.
-    destruct (create_ok ts _ _ _ _ (cache_of_ok conv ts w (e_handle e) I) F CA) as [Ea _]. subst a. fold T. fold A.
+    destruct (create_ok ts _ _ _ _ (cache_of_ok conv ts w (e_handle e) I) F CA) as [Ea Cc]. subst a. fold T. fold A.
     destruct (convert conv A (e_recs e)) as [rows|] eqn:CV; simpl.
     2:{ rewrite app_nil_r. split; [reflexivity | discriminate]. }
     rewrite F in *. destruct (bounds_for T A rows) as [lo hi].
+    destruct (recheck_ok ts c' Cc) as [c2 [RC _]]. fold T in RC. fold A in RC. unfold recheck in RC. rewrite RC. simpl (true && _).
     destruct (e_commit_ok e); simpl.
     - split.
       + unfold current at 1. simpl. rewrite flat_map_app. simpl. rewrite app_nil_r.
